@@ -9,6 +9,14 @@ import "math/big"
 // double-float, long-float, complex. signed-byte and unsigned-byte are
 // converted to bignum.
 func NormalizeNumber(v0, v1 Object) (n0, n1 Object) {
+	// An octet or bit as the second number is the fixnum of the same value
+	// just as it is when it is the first number.
+	switch t1 := v1.(type) {
+	case Octet:
+		v1 = Fixnum(t1)
+	case Bit:
+		v1 = Fixnum(t1)
+	}
 top:
 	switch t0 := v0.(type) {
 	case Fixnum:
@@ -53,6 +61,9 @@ top:
 			TypePanic(NewScope(), 0, "numbers", t1, "number")
 		}
 	case Octet:
+		v0 = Fixnum(t0)
+		goto top
+	case Bit:
 		v0 = Fixnum(t0)
 		goto top
 	case SingleFloat:
